@@ -272,8 +272,20 @@ func readInt(row, off Term, n int, le bool) Term {
 
 // bytesEqual: a fresh Bool r with r => (len equal and all bytes equal), !r => (len differ or a witness differs).
 func (f *Frame) bytesEqual(a, b Term) Term {
-	e := f.e
-	_, _, h := byteHeap(e, f.st)
+	t, side := bytesEqualTerm(f.e, f.st, a, b)
+	r := f.e.defineBool(f.name("beq"), t)
+	for _, s := range side {
+		f.e.assume(implies(s, r))
+	}
+	return r
+}
+
+// bytesEqualTerm is the content equality the bytes.Equal model uses, as a term over the byte heap of st, with
+// the sufficient conditions the model assumes (same slice, both empty). The spec builtin eqcontent(a, b)
+// produces the same term, so a contract can speak about "the two values have the same bytes" in exactly the
+// vocabulary the code's own comparison is modelled in.
+func bytesEqualTerm(e *Enc, st *State, a, b Term) (Term, []Term) {
+	_, _, h := byteHeap(e, st)
 	ra, rb := sel(h, sReg(a)), sel(h, sReg(b))
 	la, lb := sLen(a), sLen(b)
 	n := la
@@ -285,15 +297,13 @@ func (f *Frame) bytesEqual(a, b Term) Term {
 		for k := uint64(0); k < n.c; k++ {
 			eqs = append(eqs, eq(sel(ra, bvAdd(sOff(a), i64(int64(k)))), sel(rb, bvAdd(sOff(b), i64(int64(k))))))
 		}
-		return e.defineBool(f.name("beq"), and(eqs...))
+		return and(eqs...), nil
 	}
 	// general lengths: an uninterpreted content-equality predicate (no quantifier): reflexive, implies equal
 	// lengths; element-wise consequences are not derived (they are for constant lengths, above)
 	e.predeclare("eqcontent", fmt.Sprintf("(declare-fun eqcontent (%s (_ BitVec 64) %s (_ BitVec 64) (_ BitVec 64)) Bool)", arraySort(SBV64, SBV8), arraySort(SBV64, SBV8)))
-	r := e.defineBool(f.name("beq"), and(eq(la, lb), app(SBool, "eqcontent", ra, sOff(a), rb, sOff(b), la)))
-	e.assume(implies(and(eq(la, lb), eq(sReg(a), sReg(b)), eq(sOff(a), sOff(b))), r))
-	e.assume(implies(and(eq(la, i64(0)), eq(lb, i64(0))), r))
-	return r
+	t := and(eq(la, lb), app(SBool, "eqcontent", ra, sOff(a), rb, sOff(b), la))
+	return t, []Term{and(eq(la, lb), eq(sReg(a), sReg(b)), eq(sOff(a), sOff(b))), and(eq(la, i64(0)), eq(lb, i64(0)))}
 }
 
 func (f *Frame) builtin(instr ssa.Instruction, b *ssa.Builtin, c *ssa.CallCommon, args []Value, rt types.Type) Value {
